@@ -25,7 +25,13 @@ def run(chk: Check, tier: str):
             # every value of --solver-timeout-branching: an `unknown` answer must never prune
             to = TIMEOUTS[i % len(TIMEOUTS)]
             loop = ["2", "3", "1"][i % 3]
-            items.append(Item(prog, inputs, cli=("--solver-timeout-branching", to, "--loop", loop)))
+            cli = ("--solver-timeout-branching", to, "--loop", loop)
+            # every 4th program: the branching solver answers `unknown` (always / for a seeded half of its calls)
+            if i % 4 == 2:
+                cli += ("--verif-unknown", "all")
+            elif i % 4 == 3:
+                cli += ("--verif-unknown", str(i))
+            items.append(Item(prog, inputs, cli=cli))
     ncov = 0
     for i in range(0, len(items), 100):
         outs = run_items(items[i : i + 100], chk)
@@ -57,5 +63,6 @@ def run(chk: Check, tier: str):
         "E1 corpus (all families) x inputs (boundary, random, models of every reported path); for each input the "
         "conjunction of every path's constraints is evaluated pointwise; a case is non-trivial when covered; an input "
         "covered by no path while nothing was flagged (bounded loop, stuck path, escaped exception) is a violation; "
-        "runs rotate --solver-timeout-branching over 0, 1ms, 10s and --loop over 1..3"
+        "runs rotate --solver-timeout-branching over 0, 1ms, 10s and --loop over 1..3; in half of the runs the branching "
+        "solver is made to answer `unknown` (for all / for a seeded half of its queries), as on a timeout"
     )
